@@ -143,7 +143,7 @@ def run(ctx):
         for case in CORPUS:
             check_case(ctx, case)
             ctx.count("corpus")
-        n = 330 if ctx.quick() else 10000
+        n = 380 if ctx.quick() else 10000
         for _ in range(n):
             check_case(ctx, c04.gen_case(ctx.rng, ctx.quick(), empty_axes=(ctx.rng.random() < 0.3)))
     finally:
